@@ -472,6 +472,10 @@ def replay(w):
                 decoy = fc.real_handbuilt(C, _rate=16000, _analytic=w['analytic'], _vertices=(100.0, 2100.0, 7900.0))
                 decoy.get_frequency_response(0, width)
                 b = fc.real_handbuilt(C, _rate=8000, _analytic=w['analytic'], _vertices=verts)
+                # ... and the bank itself was queried before at other widths with the same number of bins
+                for w0 in (2 * width - 2, 2 * width - 1):
+                    if w0 >= 2:
+                        b.get_frequency_response(0, w0, half=True)
                 full = b.get_frequency_response(0, width)
                 mel = scales.MelScaling().hertz_to_scale
                 for kk in range(width):
